@@ -273,12 +273,18 @@ WriteL(s, n, idx, vd0) ==
               s1 == [f.s EXCEPT !.litems[n] = InsertIdx(@, at + 1, f.v)]
           IN [ok |-> f.ok, s |-> Reindex(s1, n), ups |-> <<Upd(n, LKey(at), MISSING, f.v)>>]
 
+\* every value of a batch must be storable at all (no node stored into its own subtree), also the values behind a rejected one:
+\* the code looks at all of them before it raises
+StripIns(v) == IF IsIns(v) THEN v - INS ELSE v
+AllOkTargets(s, n, vals) == \A j \in 1..Len(vals) : OkTarget(s, n, StripIns(vals[j]))
+NotGenerated(s) == [ok |-> FALSE, s |-> s, ups |-> NoUpd]
 \* a sequence of list writes <<idx, vd>> applied left to right
 RECURSIVE WriteLSeq(_,_,_)
 WriteLSeq(s, n, ws) ==
   IF ws = <<>> THEN [ok |-> TRUE, s |-> s, ups |-> NoUpd]
   ELSE LET a == WriteL(s, n, ws[1][1], ws[1][2]) IN
-       IF ~a.ok \/ ErrOf(a) # "none" THEN a            \* rejected at its first write: nothing has changed
+       IF ErrOf(a) # "none" /\ ~AllOkTargets(s, n, [j \in 1..Len(ws) |-> ws[j][2]]) THEN NotGenerated(s)
+       ELSE IF ~a.ok \/ ErrOf(a) # "none" THEN a            \* rejected at its first write: nothing has changed
        ELSE LET b == WriteLSeq(a.s, n, Tail(ws)) IN
             IF ErrOf(b) # "none" THEN [ok |-> FALSE, s |-> s, ups |-> NoUpd]      \* a batch rejected after its first write: not generated
             ELSE [ok |-> b.ok, s |-> b.s, ups |-> a.ups \o b.ups]
@@ -286,7 +292,8 @@ RECURSIVE AppendSeq(_,_,_)
 AppendSeq(s, n, vds) ==
   IF vds = <<>> THEN [ok |-> TRUE, s |-> s, ups |-> NoUpd]
   ELSE LET a == WriteL(s, n, Len(s.litems[n]), vds[1]) IN
-       IF ~a.ok \/ ErrOf(a) # "none" THEN a
+       IF ErrOf(a) # "none" /\ ~AllOkTargets(s, n, vds) THEN NotGenerated(s)
+       ELSE IF ~a.ok \/ ErrOf(a) # "none" THEN a
        ELSE LET b == AppendSeq(a.s, n, Tail(vds)) IN
             IF ErrOf(b) # "none" THEN [ok |-> FALSE, s |-> s, ups |-> NoUpd]
             ELSE [ok |-> b.ok, s |-> b.s, ups |-> a.ups \o b.ups]
